@@ -55,6 +55,11 @@ def first_connections(rnd):
     sc("closing-timeout", [("data", 0, hs)] + [("timeout", 5120)] * 9, app={2: [("close", 1000, b"")]})
     sc("closed-gracefully", [("data", 0, hs + E(8, b"\x03\xe8")), ("eof", 0)])
     sc("rejected", [("data", 0, b"HTTP/1.1 403 Forbidden\r\n\r\n"), ("eof", 0)])
+    # rejections that name something the object could be tempted to remember: extension parameters the client cannot use, a
+    # redirect to another node
+    sc("rejected-unusable-deflate-parameter", [("data", 0, ref6455.handshake_response(acc, extra=b"Sec-WebSocket-Extensions: permessage-deflate; server_max_window_bits=" + rnd.choice([b"7", b"16", b"abc"]) + b"\r\n")), ("eof", 0)], ws_compress=True)
+    sc("rejected-redirect", [("data", 0, b"HTTP/1.1 " + rnd.choice([b"301 Moved Permanently", b"302 Found", b"307 Temporary Redirect", b"308 Permanent Redirect"]) +
+                               b"\r\nLocation: " + rnd.choice([b"ws://other.test:9000/elsewhere", b"wss://node2.example.test/chat?x=1", b"/moved"]) + b"\r\nContent-Length: 0\r\n\r\n"), ("eof", 0)])
     sc("connect-failure", [], connect="sockfail")
     sc("protocol-error", [("data", 0, hs + E(1, b"ok", fin=0) + E(1, b"bad"))])
     sc("unresponsive", [("data", 0, hs)] + [("timeout", 5120)] * 6, cfg=simnet.default_cfg(ping_timeout=10240))
@@ -226,7 +231,7 @@ def run(rep, info, model, tier, seed):
     if dis and not rep.violations:
         rep.broken("correspondence C17: the model disagrees with a fresh WebSocket on %d second-connection scenarios; first %r" % (dis, first))
     rep.families.append(dict(name="C17:reconnect-pairs", cases=len(pairs), disagreements=dis,
-                             rule="connection 1 on a WebSocket object ends mid-header / mid-frame / inside a UTF-8 character / mid-fragmented message / mid-compression-context with takeover / while closing / close timeout / gracefully / rejected / connect failure / protocol error / unresponsive / abandoned at each event by each mechanism (also at the events of a server-initiated close, of a pending client close and of a compressed history, the iterator kept until the next connect()); the object constructed with or without protocols / agent; connection 2 runs a fixed battery (fragmented text with a ping inside, binary, optional compression, sends, timers, close handshake) under random segmentation; its full trace and its upgrade request must equal a freshly constructed object's, the handshake keys must differ"))
+                             rule="connection 1 on a WebSocket object ends mid-header / mid-frame / inside a UTF-8 character / mid-fragmented message / mid-compression-context with takeover / while closing / close timeout / gracefully / rejected (403, unusable extension parameters, a redirect with a Location) / connect failure / protocol error / unresponsive / abandoned at each event by each mechanism (also at the events of a server-initiated close, of a pending client close and of a compressed history, the iterator kept until the next connect()); the object constructed with or without protocols / agent; connection 2 runs a fixed battery (fragmented text with a ping inside, binary, optional compression, sends, timers, close handshake) under random segmentation; its full trace and its upgrade request must equal a freshly constructed object's, the handshake keys must differ"))
     # the regenerated inventory, read directly: it names the offending object when the tie proof breaks
     try:
         import re
